@@ -86,8 +86,20 @@ def check(ctx):
     cls = mod.cls("Env")
     meths = class_methods(cls)
     n_mut = 0
+    def _in_store(e, defs):
+        """e is the variable store, or a container inside it (`self._d._local`), directly or through a local alias"""
+        if isinstance(e, ast.Name) and e.id != "self":
+            ds = defs.get(e.id, [])
+            return bool(ds) and all(d.kind in ("assign", "walrus") and d.value is not None and not isinstance(d.value, ast.Name) and _in_store(d.value, defs) for d in ds)
+        while isinstance(e, ast.Attribute):
+            if unparse(e) == "self._d":
+                return True
+            e = e.value
+        return False
+
     for name, fn in meths.items():
         cfg = None
+        sdefs = df.all_defs(fn)
         for n in walk_local(fn):
             mut = None
             if isinstance(n, (ast.Assign, ast.AugAssign)):
@@ -99,7 +111,7 @@ def check(ctx):
                 for t in n.targets:
                     if isinstance(t, ast.Subscript) and unparse(t.value) == "self._d":
                         mut = n
-            elif isinstance(n, ast.Expr) and isinstance(n.value, ast.Call) and isinstance(n.value.func, ast.Attribute) and unparse(n.value.func.value) == "self._d" and n.value.func.attr in STORE_MUTATORS:
+            elif isinstance(n, ast.Expr) and isinstance(n.value, ast.Call) and isinstance(n.value.func, ast.Attribute) and _in_store(n.value.func.value, sdefs) and n.value.func.attr in STORE_MUTATORS:
                 mut = n
             elif isinstance(n, ast.Assign) and any(unparse(t) == "self._d" for t in n.targets):
                 if name == "__init__":
@@ -285,7 +297,12 @@ def check(ctx):
     from ..engine import dtable as _dt
 
     dtf = flat(ctx, dt, depth=2, skip=("get_detyper",))
-    res_names = returned_names(dtf)
+    # the result mapping under every local name it goes by: a phase extracted into a helper builds it under the helper's
+    # own local and hands it back (`ctx = ctx__i1` in the flat view) - plain copies in either direction are one object
+    _ddefs = df.all_defs(dtf)
+    res_names = set()
+    for _rn in returned_names(dtf):
+        res_names |= alias_class(_ddefs, _rn)
     store_loops = [l for l in walk_local(dtf) if isinstance(l, ast.For) and any(isinstance(n, ast.Assign) and isinstance(n.targets[0], ast.Subscript) and isinstance(n.targets[0].value, ast.Name) and n.targets[0].value.id in res_names for n in ast.walk(l))]
     if len(store_loops) != 1:
         raise AnchorMissing(f"{EN}:Env.detype: no (single) loop storing into the result mapping ({len(store_loops)})")
